@@ -3,3 +3,4 @@ pub mod elf;
 pub mod elf_ids;
 pub mod elf_syms;
 pub mod perfdata;
+pub mod elf_c19;
